@@ -19,13 +19,107 @@ import (
 // t1Exceptions: recursive functions that follow user-type reference chains; the
 // schema library has rejected cyclic references before they run. Each is checked to
 // be reachable only after compileUserTypes succeeded (stage order).
-var t1RecExceptions = map[string]string{
-	"(*core.JApiCore).isJsightCastToObject": "follows user-type references; the schema library rejects reference cycles (\"Infinity recursion detected\") when the types are compiled, and this runs in validateCatalog, after compileCore returned nil",
-	"(*core.JApiCore).checkUserType":        "re-check keyed by a type name taken from a library error; the chain of distinct incorrect types is finite and the library reports a type at most as its own culprit once",
+// Frozen exceptions of T1, found by role rather than by name.
+//
+//   - a self-recursive function (or a loop) that follows user-type references: it looks a
+//     type up in the catalog's UserTypes collection and continues with what it found. The
+//     schema library rejects reference cycles ("Infinity recursion detected") when the types
+//     are compiled, and these run after that stage returned nil.
+//   - a self-recursive re-check keyed by a type name taken from a library error value.
+const (
+	t1WhyRefChain = "follows user-type references found in the UserTypes collection; the schema library rejects reference cycles when the types are compiled, and this runs after compileCore returned nil"
+	t1WhyCulprit  = "re-check keyed by a type name taken from a library error; the chain of distinct incorrect types is finite and the library reports a type at most as its own culprit once"
+)
+
+// t1RoleOf classifies a self-recursive function: "refchain", "culprit" or "".
+func (c *Ctx) t1RoleOf(f *ssa.Function) string {
+	pk, decl, lit, body := c.syntaxOf(f)
+	if pk == nil || lit != nil {
+		return ""
+	}
+	info := pk.TypesInfo
+	self, _ := info.Defs[decl.Name].(*types.Func)
+	utGet := c.Func("catalog", "UserTypes.Get")
+	fromGet := map[types.Object]bool{}
+	ast.Inspect(body, func(n ast.Node) bool {
+		as, ok := n.(*ast.AssignStmt)
+		if !ok || len(as.Rhs) != 1 {
+			return true
+		}
+		if call, ok := as.Rhs[0].(*ast.CallExpr); ok && utGet != nil && Callee(info, call) == utGet {
+			if id, ok := as.Lhs[0].(*ast.Ident); ok {
+				fromGet[info.ObjectOf(id)] = true
+			}
+		}
+		return true
+	})
+	role := ""
+	ast.Inspect(body, func(n ast.Node) bool {
+		call, ok := n.(*ast.CallExpr)
+		if !ok || Callee(info, call) != self {
+			return true
+		}
+		for _, a := range call.Args {
+			if root := cfgx.RootObj(info, stripPtr(a)); root != nil && fromGet[root] {
+				role = "refchain"
+			}
+			if inner, ok := ast.Unparen(a).(*ast.CallExpr); ok {
+				if r := Recv(inner); r != nil {
+					if t := info.TypeOf(r); t != nil {
+						if n, ok := t.(*types.Named); ok && n.Obj().Pkg() != nil && strings.Contains(n.Obj().Pkg().Path(), "jsight-schema-go-library") {
+							if role == "" {
+								role = "culprit"
+							}
+						}
+					}
+				}
+			}
+		}
+		return true
+	})
+	return role
 }
 
-var t1LoopExceptions = map[string]string{
-	"core.(*JApiCore).ExpandRawPathVariableShortcuts:for#2": "follows a chain of user-type shortcuts; the schema library rejects reference cycles when the types are compiled, and this runs in compileCatalog, after compileCore returned nil",
+// t1LoopFollowsRefChain: the loop's body reassigns what its condition reads from a value
+// looked up in the UserTypes collection.
+func (c *Ctx) t1LoopFollowsRefChain(pk *pkgT, fs *ast.ForStmt) bool {
+	info := pk.TypesInfo
+	utGet := c.Func("catalog", "UserTypes.Get")
+	if utGet == nil || fs.Cond == nil {
+		return false
+	}
+	fromGet := map[types.Object]bool{}
+	ast.Inspect(fs.Body, func(n ast.Node) bool {
+		as, ok := n.(*ast.AssignStmt)
+		if !ok || len(as.Rhs) != 1 {
+			return true
+		}
+		if call, ok := as.Rhs[0].(*ast.CallExpr); ok && Callee(info, call) == utGet {
+			if id, ok := as.Lhs[0].(*ast.Ident); ok {
+				fromGet[info.ObjectOf(id)] = true
+			}
+		}
+		return true
+	})
+	follows := false
+	ast.Inspect(fs.Body, func(n ast.Node) bool {
+		as, ok := n.(*ast.AssignStmt)
+		if !ok || len(as.Lhs) != 1 || len(as.Rhs) != 1 {
+			return true
+		}
+		if root := cfgx.RootObj(info, as.Rhs[0]); root != nil && fromGet[root] {
+			// the assigned expression is read by the loop condition
+			lhsRoot := cfgx.RootObj(info, as.Lhs[0])
+			ast.Inspect(fs.Cond, func(y ast.Node) bool {
+				if id, ok := y.(*ast.Ident); ok && info.ObjectOf(id) == lhsRoot {
+					follows = true
+				}
+				return true
+			})
+		}
+		return true
+	})
+	return follows
 }
 
 type fnNode struct {
@@ -251,12 +345,15 @@ func (c *Ctx) ruleT1Rec() {
 			continue
 		}
 		exc := ""
-		for _, f := range repo {
-			if why, ok := t1RecExceptions[shortFn(f)]; ok {
-				exc = why
+		if len(repo) == 1 {
+			switch c.t1RoleOf(repo[0]) {
+			case "refchain":
+				exc = t1WhyRefChain
+			case "culprit":
+				exc = t1WhyCulprit
 			}
 		}
-		if exc != "" && len(repo) == 1 {
+		if exc != "" {
 			sc.Exception(key, c.P.Pos(repo[0].Pos()), exc)
 			continue
 		}
@@ -767,8 +864,8 @@ func (c *Ctx) ruleT1Loops() {
 				sc.Holds(key, pos, why)
 				return true
 			}
-			if exc, isExc := t1LoopExceptions[key]; isExc {
-				sc.Exception(key, pos, exc)
+			if c.t1LoopFollowsRefChain(pk, fs) {
+				sc.Exception(key, pos, t1WhyRefChain)
 				return true
 			}
 			sc.Violation(key, pos, "loop matches no termination idiom ("+why+"): an iteration may make no progress, so some input can make the parser loop forever")
